@@ -272,7 +272,7 @@ struct Gen
     }
   }
 
-  std::vector<double> tangent_theta(Rng & r, double theta, int tcls, int dircls) const
+  std::vector<double> tangent_theta(Rng & r, double theta, int tcls, int dircls, int max_other = kNumThetaStrata - 1) const
   {
     std::vector<double> a(static_cast<std::size_t>(dof), 0.0);
     bool first_rot = true;
@@ -280,7 +280,7 @@ struct Gen
     bool have_axis = false;
     for (const auto & f : fields) {
       if (f.kind == TRANS) continue;
-      const double th = first_rot ? theta : sample_theta(r, r.idx(kNumThetaStrata - 1));
+      const double th = first_rot ? theta : sample_theta(r, r.idx(max_other));
       if (f.kind == QUAT) {
         double d[3];
         sample_dir3(r, dircls == 3 ? 2 : dircls, d);
@@ -307,9 +307,9 @@ struct Gen
     return a;
   }
 
-  std::vector<double> tangent(Rng & r, int st, int tcls, int dircls) const
+  std::vector<double> tangent(Rng & r, int st, int tcls, int dircls, int max_other = kNumThetaStrata - 1) const
   {
-    return tangent_theta(r, sample_theta(r, st), tcls, dircls);
+    return tangent_theta(r, sample_theta(r, st), tcls, dircls, max_other);
   }
 
   // tangent coordinates for the algebra laws: 0: {0,+-1}; 1: O(1); 2: translations 1e3; 3: zero; 4: integers
